@@ -32,6 +32,31 @@ def main():
                         for c, r in m.get("detected_by", {}).items())
         needs = (m.get("needs") or m.get("breaks", "").strip().split("\n")[0])[:220].replace("|", "/")
         out.append("| %s%s | %s | %s | %s |" % (os.path.basename(d), "" if m.get("confirmed", True) else " (unconfirmed)", ", ".join("`%s`" % f for f in files), needs, det))
+    # summary of the table above
+    tot = own = other = missed = noinput = 0
+    missed_ids = []
+    for d in sorted(glob.glob(os.path.join(ROOT, "seeded", "*"))):
+        mp = os.path.join(d, "meta.json")
+        if not os.path.exists(mp):
+            continue
+        m = json.load(open(mp))
+        det = m.get("detected_by", {})
+        tot += 1
+        pid = m.get("property")
+        if det.get(pid, {}).get("violation"):
+            own += 1
+            if any("no-failing-input-found" in l for l in det[pid].get("lines", [])):
+                noinput += 1
+        elif any(v.get("violation") for v in det.values()):
+            other += 1
+        else:
+            missed += 1
+            missed_ids.append(os.path.basename(d))
+    out += ["", "Summary (latest trial of each stored change against the final checks): %d changes; %d caught by the check of the property they were written against"
+            " (%d of these only as a broken obligation/correspondence, `no-failing-input-found`); %d caught by the check of a neighbouring property only"
+            " (the change sits in that property's code: e.g. shuffling.go changes written against C06 are C07's, pubkey-cache changes written against C08/C15 are C16's);"
+            " %d caught by none: %s." % (tot, own, noinput, other, missed, ", ".join(missed_ids) or "-"),
+            "Every miss found on the way was turned into generator/harness work (sections 0.2, design/chaingen.md rounds 1-12, design/C12.md, design/C04-C05-C15.md), never into a weaker oracle."]
     out += ["", "### 0.5b Behaviour-preserving refactors (false-alarm trials)", "",
             "Written by a fresh sub-agent told to change the shape of the source only (rename, extract/inline helper, loop form, De Morgan, error text,",
             "defer vs explicit unlock, ...). Every check anchored in the touched files is run against the refactored tree and must stay quiet.", "",
